@@ -907,21 +907,6 @@ Lemma todo_at_upd st i s' h th th' : nth_error (cs_threads st) i = Some th ->
   todo_at (mkCState s' h (upd_nth (cs_threads st) i th')) i = th_todo th'.
 Proof. intros H. unfold todo_at. cbn [cs_threads]. rewrite (nth_error_upd_same _ _ _ _ H). reflexivity. Qed.
 
-(* what one step of thread i means for the log, for thread i itself *)
-Record lin_step_ok (st : cstate) (i : nat) : Prop := {
-  ls_server : cs_server (fst (cstep st i)) =
-              match step_event st i with
-              | Some e => fst (step (cs_server st) (ev_call e))
-              | None => cs_server st
-              end;
-  ls_exact : forall e, step_event st i = Some e -> ev_exact e = true ->
-             ev_resp e = snd (step (cs_server st) (ev_call e));
-  ls_tid : forall e, step_event st i = Some e -> ev_tid e = i;
-  ls_resp : pending st i ++ map ev_resp (opt_list (step_event st i))
-            = done_resp (snd (cstep st i)) ++ pending (fst (cstep st i)) i;
-  ls_calls : map ev_tag (opt_list (step_event st i)) ++ tag (unlin (fst (cstep st i)) i) = tag (unlin st i)
-}.
-
 Lemma final_acc_scan p acc : final_acc p = Some acc -> is_scan_prog p = true.
 Proof. destruct p; try discriminate. reflexivity. Qed.
 
@@ -1742,4 +1727,109 @@ Proof.
   assert (Hin : In (ev_tag e) (map ev_tag (lin_of (ev_tid e) L))).
   { apply in_map. unfold lin_of. apply filter_In. split; auto. apply Nat.eqb_refl. }
   rewrite Htags, Ec in Hin. unfold ev_tag in Hin. apply in_tag in Hin. destruct Hin as [<-|[]]. exact Hi.
+Qed.
+
+(* ------------------------------------------------------------------ *)
+(* Part 2i: the log names every request once; inexact entries          *)
+(* ------------------------------------------------------------------ *)
+Lemma nodup_app_l_gen {A} (l l' : list A) : NoDup (l ++ l') -> NoDup l.
+Proof.
+  induction l as [|x l IH]; cbn; intros H; [constructor|]. inversion H as [|? ? Hn Hd]; subst.
+  constructor; auto. intros Hin. apply Hn. apply in_or_app. auto.
+Qed.
+
+Lemma tag_rems_lt l : forall x, In x (tag l) -> (snd x < length l)%nat.
+Proof.
+  induction l as [|c l IH]; intros x H; [destruct H|]. cbn [tag length] in *. destruct H as [<-|H]; cbn; [lia|].
+  specialize (IH x H). lia.
+Qed.
+
+Lemma tag_rems_nodup l : NoDup (map snd (tag l)).
+Proof.
+  induction l as [|c l IH]; cbn; constructor; auto. intros H. apply in_map_iff in H. destruct H as [x [E Hx]].
+  apply tag_rems_lt in Hx. lia.
+Qed.
+
+Lemma nodup_by_thread (L : list event) : (forall j, NoDup (map ev_rem (lin_of j L))) ->
+  NoDup (map (fun e => (ev_tid e, ev_rem e)) L).
+Proof.
+  induction L as [|e L IH]; intros H; cbn [map]; constructor.
+  - intros Hin. apply in_map_iff in Hin. destruct Hin as [e' [E He']]. injection E as E1 E2.
+    specialize (H (ev_tid e)). unfold lin_of in H. cbn [filter] in H. rewrite Nat.eqb_refl in H. cbn [map] in H.
+    inversion H as [|? ? Hn _]; subst. apply Hn. rewrite <- E2. apply in_map. apply filter_In. split; auto.
+    apply Nat.eqb_eq. exact E1.
+  - apply IH. intros j. specialize (H j). unfold lin_of in *. cbn [filter] in H.
+    destruct (Nat.eqb (ev_tid e) j); auto. cbn [map] in H. inversion H; auto.
+Qed.
+
+(* (thread, ev_rem) names a request: no request is logged twice *)
+Theorem lin_log_nodup : forall s0 progs sched, no_gc_progs progs ->
+  NoDup (map (fun e => (ev_tid e, ev_rem e)) (lin_log (init_cstate s0 progs) sched)).
+Proof.
+  intros s0 progs sched Hng. apply nodup_by_thread. intros j.
+  pose proof (conc_serializable s0 progs sched Hng) as [_ [_ T]]. cbn zeta in T. destruct (T j) as [_ T3].
+  pose proof (tag_rems_nodup (nth j progs [])) as Hn. rewrite <- T3, map_app in Hn. apply nodup_app_l_gen in Hn.
+  rewrite map_map in Hn. exact Hn.
+Qed.
+
+(* an entry is inexact only for a read that was parked at a hand-over (it had handed the lock
+   over in the middle of its scan): every request that runs in one section is exact *)
+Theorem inexact_only_after_handover : forall st i e, step_event st i = Some e -> ev_exact e = false ->
+  exists rows rngs count coins pending acc, prog_at st i = PScan rows rngs count coins pending acc false.
+Proof.
+  intros st i e. unfold step_event. destruct (nth_error (cs_threads st) i) as [[[|c rest] p]|] eqn:Hn; try discriminate.
+  assert (Hp : prog_at st i = p) by (unfold prog_at; rewrite Hn; reflexivity). rewrite Hp.
+  destruct (final_acc p) eqn:Hfa; [discriminate|].
+  assert (G : is_scan_prog p = true -> exists rows rngs count coins pending acc, p = PScan rows rngs count coins pending acc false).
+  { destruct p as [| | |rows rngs count coins pending acc final|]; try discriminate. destruct final; [discriminate|]. intros _.
+    do 6 eexists. reflexivity. }
+  destruct (snd (cstep st i)); try discriminate.
+  - destruct (final_acc (prog_at (fst (cstep st i)) i)); [|discriminate].
+    intros H Hex. injection H as <-. cbn in Hex. apply negb_false_iff in Hex. auto.
+  - intros H Hex. injection H as <-. cbn in Hex. apply negb_false_iff in Hex. auto.
+Qed.
+
+(* ------------------------------------------------------------------ *)
+(* Part 2j: ODone order, with reads that answer at once                *)
+(* ------------------------------------------------------------------ *)
+(* no thread is ever parked inside a scan along the schedule: every read answers in the step
+   that takes its first lock (nothing to send), or is rejected *)
+Fixpoint scan_free (st : cstate) (sched : list nat) : Prop :=
+  (forall i, is_scan_prog (prog_at st i) = false)
+  /\ match sched with [] => True | j :: rest => scan_free (fst (cstep st j)) rest end.
+
+Lemma scan_free_head st sched : scan_free st sched -> forall i, is_scan_prog (prog_at st i) = false.
+Proof. destruct sched; cbn; tauto. Qed.
+
+Lemma step_event_done_gen st i : is_scan_prog (prog_at st i) = false ->
+  is_scan_prog (prog_at (fst (cstep st i)) i) = false -> step_event st i = done_event st i.
+Proof.
+  intros H1 H2. unfold step_event, done_event. unfold prog_at in H1.
+  destruct (nth_error (cs_threads st) i) as [[[|c rest] p]|]; try reflexivity.
+  cbn [th_prog] in H1. assert (Hfa : final_acc p = None) by (destruct p; try reflexivity; discriminate).
+  rewrite Hfa, H1. destruct (snd (cstep st i)); try reflexivity.
+  destruct (final_acc (prog_at (fst (cstep st i)) i)) eqn:Hf; [|reflexivity].
+  apply final_acc_scan in Hf. congruence.
+Qed.
+
+Lemma lin_log_done_gen sched : forall st, scan_free st sched -> lin_log st sched = done_log st sched.
+Proof.
+  induction sched as [|i sched IH]; intros st H; [reflexivity|]. cbn [lin_log done_log]. destruct H as [H1 H2].
+  rewrite step_event_done_gen, IH; auto. apply (scan_free_head _ _ H2).
+Qed.
+
+(* C06 (a) in ODone order, in general: for every schedule of programs without GC along which no
+   read is ever parked inside its scan, the calls in the order of their ODone steps explain the
+   execution: [run s0 log] gives the final server and exactly the responses received *)
+Theorem conc_serializable_odone : forall s0 progs sched, no_gc_progs progs ->
+  let st0 := init_cstate s0 progs in
+  scan_free st0 sched ->
+  let D := done_log st0 sched in
+  run s0 (map ev_call D) = (cs_server (fst (crun st0 sched)), map ev_resp D).
+Proof.
+  intros s0 progs sched Hng st0 Hfree. cbn zeta.
+  pose proof (conc_serializable s0 progs sched Hng) as [H1 [H2 _]]. cbn zeta in H1, H2. fold st0 in H1, H2.
+  rewrite (lin_log_done_gen sched st0 Hfree) in H1, H2.
+  apply forall2_exact_eq in H2; [|apply done_log_exact].
+  rewrite (surjective_pairing (run s0 _)). rewrite H1, H2. reflexivity.
 Qed.
